@@ -3,7 +3,8 @@ import random
 
 WORDS = ["a", "b", "c", "id", "name", "value", "items", "data", "type", "x", "y", "k1", "k2", "k3", "meta", "tags"]
 PLAIN = ["foo", "bar", "baz", "qux", "red", "green", "blue", "a,b", "a", "b", "x y", 'q"t', "back\\slash",
-         "new\nline", "it's", "tab\t", "]", "é", "ß", "日本", "😀", "", "N/A", "none", "yes", "no"]
+         "new\nline", "it's", "tab\t", "]", "é", "ß", "日本", "😀", "", "N/A", "none", "yes", "no",
+         "ls\u2028x", "ps\u2029x", "nel\x85x", "vt\x0bx", "ff\x0cx", "fs\x1cx", "cr\rx", "nul\x00x"]
 PSEUDO = ["1", "-2", "+3", "0", "1.5", "-0.5", "1e3", "1E-2", ".5", "5.", "true", "false", "True", "FALSE",
           " 12 ", "1_000", "١٢", "nan", "inf", "-inf", "Infinity", "0x10", "1__0", "_1", "12\n",
           "2020-01-02", "2020-01", "20200102", "12:30", "12:30:45.123", "2020-01-02T03:04:05",
@@ -16,7 +17,8 @@ KEYS_STYLED = ["snake_case", "camelCase", "PascalCase", "kebab-case", "with spac
                "datetime", "schema", "str", "int", "None", "True", "from", "lambda", "Root", "Model0", "self",
                "naïve", "straße", "приветx", "Ünïcode", "a\"b", "a\\b", "a'b", "tab\tkey", "new\nline", "q?mark",
                "UPPER", "mixedCASE_key", "a__b", "trailing_", "items", "children", "data", "ITEM-s", "x😀y",
-               "dataclass", "attr", "BaseModel", "Literal", "Optional", "Union", "Dict", "converter", "json"]
+               "dataclass", "attr", "BaseModel", "Literal", "Optional", "Union", "Dict", "converter", "json",
+               "lsep\u2028key", "nel\x85key", "vtab\x0bkey", "ffeed\x0ckey", "gsep\x1dkey"]
 KEYS_OUT = ["日本語a", "1abc", "0", "9lives", "_private", "__dunder__", "", "-", "日本", "***", " ", "fooBar", "foo_bar", "FooBar",
             "foo-bar", "😀"]
 
